@@ -306,6 +306,11 @@ def run_shard(shard, rec):
                 count += 1
                 if count % 997 == 1:
                     rec.sample(case)
+            if n <= 3:
+                # group keys named like parameters of ListOfDicts methods (filter(function=...), select(*keys), ...)
+                renamed = [{"function": x["k"], "keys": x["k2"], "id": x["id"]} for x in items]
+                for by in (["function"], ["keys"], ["function", "keys"]):
+                    check_case({"part": "agg", "items": renamed, "by": by}, rec)
 
 
 # ---------------------------------------------------------------------------
